@@ -29,7 +29,7 @@ for prop in [f'C{i:02d}' for i in range(1, 21)]:
         os.makedirs(tgt, exist_ok=True)
         shutil.copy(patch, os.path.join(tgt, 'patch.diff'))
         shutil.copy(os.path.join(d, 'demo.py'), os.path.join(tgt, 'demo.py'))
-        notes = open(os.path.join(d, 'notes.txt')).read().strip() if os.path.exists(os.path.join(d, 'notes.txt')) else ''
+        notes = next((open(os.path.join(d, n)).read().strip() for n in ("notes.txt", "notes.md") if os.path.exists(os.path.join(d, n))), "")
         files = sorted(set(re.findall(r'^\+\+\+ b/(\S+)', open(patch).read(), re.M)))
         meta = {
             'property': prop,
